@@ -429,6 +429,7 @@ int sim_run(void) {
 NOSAN void __sanitizer_cov_trace_pc(void) {
     if (!cur) return;
     S.blocks++;
+    if (K.max_blocks && S.blocks > K.max_blocks && (S.blocks & 1023) == 0) { sim_yield("f"); return; }
     if (--preempt_countdown > 0) return;
     preempt_countdown = 1L << 40;
     if (!K.preempt_mean) return;
@@ -953,6 +954,7 @@ static int k_mutex_lock(void *addr) {
         block_on(rdy_mutex, m, "M");
     }
     m->owner = cur;
+    if (K.preempt_mean && sim_choose(CH_PREEMPT, 2)) sim_yield("n");   /* descheduled while holding the lock */
     return 0;
 }
 static int k_mutex_unlock(void *addr) {
